@@ -71,6 +71,7 @@ type Op struct {
 	HasDefault bool
 	Cond       func() bool
 	Obj        uintptr // identity of the object touched (for happens-before hashing)
+	Obj2       uintptr // second object touched, if any
 }
 
 func (o *Op) SiteString() string {
@@ -463,6 +464,14 @@ func (s *Sched) hbStep(m *Move) {
 		}
 		h = mix(h, oh)
 		s.setObjHB(obj, 0, h)
+	}
+	if op.Obj2 != 0 {
+		oh, ok := s.objHB[op.Obj2]
+		if !ok {
+			oh = 0x7654321
+		}
+		h = mix(h, oh)
+		s.setObjHB(op.Obj2, 0, h)
 	}
 	s.setTaskHB(t, h)
 	if m.p != nil {
